@@ -78,6 +78,9 @@ def run(ctx):
         with open(inp, "w") as f:
             for c in ccases[:60]:
                 f.write(json.dumps(c) + "\n")
+            # the gates synchronise the goroutines (no race is visible through them): free-running requests too
+            for i in range(300):
+                f.write(json.dumps(dict(id=100000 + i, s=[], n=2 + i % 3, free=True)) + "\n")
         p = subprocess.run([rbin, "isoconc", "-j", "2", "-t", "60"], stdin=open(inp), capture_output=True, text=True, cwd=ctx.scratch, env=dict(os.environ, GORACE="halt_on_error=0"))
         nrace = p.stderr.count("WARNING: DATA RACE")
         race = "%d data race reports" % nrace
